@@ -462,6 +462,7 @@ theorem HInv.afterApply {L : LogicData} {mw mc : Nat} {dead : RuleId → Nat →
   cases r with
   | closure => exact H
   | frame fr => exact H
+  | ident => exact H
   | table k =>
     simp only
     split
@@ -519,6 +520,7 @@ theorem lsOf_ok {L : LogicData} {t t' : Tableau} {r : RuleId} {st : Step} {b : B
       | _ => simp [lsOf] at hl
     | _ => cases st <;> simp [lsOf] at hl
   | closure => cases st <;> simp [lsOf] at hl
+  | ident => cases st <;> simp [lsOf] at hl
   | table k => cases st <;> simp [lsOf] at hl
 
 
@@ -848,7 +850,8 @@ theorem mem_targets {L : LogicData} {s : SState} {r : RuleId} {bi : Nat} {st : S
       st ∈ (match r with
         | .closure => (hh.closeT.map (closeStep bi)).toList
         | .table k => tableTargets L s.maxWorlds s.maxConsts bi b hh (s.live r bi) k
-        | .frame fr => frameTargets L s bi b hh (s.live r bi) fr) := by
+        | .frame fr => frameTargets L s bi b hh (s.live r bi) fr
+        | .ident => identTargets L bi b (s.live r bi)) := by
   unfold targets at h
   split at h
   · next b hh hb hhs =>
@@ -890,6 +893,34 @@ theorem ruleFor_of_key {L : LogicData} {sn : Sent} {d : Option Bool} {w : Option
     exact ⟨whole, l0, by simp [LogicData.ruleFor, hdec, hr, hl0]⟩
   · cases hk
 
+/-- what a target of the identity rule is -/
+theorem ident_targets_shape {L : LogicData} {bi : Nat} {b : Branch} {live : List Nat} {st : Step}
+    (h : st ∈ identTargets L bi b live) :
+    L.closesSelfIdNeg = true ∧ ∃ i j ni np nd, st = .ident bi i j ∧ i ∈ live ∧ j ≠ i ∧ b.nodes[i]? = some ni ∧
+      b.nodes[j]? = some np ∧ identAdd ni np = some nd ∧ LogicData.isSelfIdentity nd = false ∧ b.hasNode nd = false := by
+  unfold identTargets at h
+  split at h
+  · cases h
+  next hc =>
+  refine ⟨by simpa using hc, ?_⟩
+  obtain ⟨i, hi, h1⟩ := List.mem_flatMap.1 h
+  obtain ⟨j, _, h2⟩ := List.mem_flatMap.1 h1
+  split at h2
+  · cases h2
+  next hji =>
+  split at h2
+  · next ni np hni hnp =>
+    split at h2
+    · next nd hnd =>
+      split at h2
+      · cases h2
+      · next hcond =>
+        simp only [List.mem_singleton] at h2
+        simp only [Bool.or_eq_true, not_or, Bool.not_eq_true] at hcond
+        exact ⟨i, j, ni, np, nd, h2, hi, by simpa using hji, hni, hnp, hnd, hcond.1, hcond.2⟩
+    · cases h2
+  · cases h2
+
 /-- what a quit-flag target of the model ticks: a node of a ticking rule -/
 theorem quit_target_tick {L : LogicData} {s : SState} (hinv : Inv L s) {r : RuleId} {bi bi' : Nat} {name : String}
     {tick : Option Nat} (hm : Step.quit bi' name tick ∈ targets L s r bi) :
@@ -900,6 +931,9 @@ theorem quit_target_tick {L : LogicData} {s : SState} (hinv : Inv L s) {r : Rule
   rw [hb] at hb'; simp only [Option.some.injEq] at hb'; subst hb'
   have I := hinv.branch bi b hh hb hhs ho
   cases r with
+  | ident =>
+    obtain ⟨_, i0, j0, _, _, _, he, _⟩ := ident_targets_shape hmem
+    cases he
   | closure =>
     simp only at hmem
     cases hc : hh.closeT with
@@ -991,11 +1025,12 @@ theorem quit_target_tick {L : LogicData} {s : SState} (hinv : Inv L s) {r : Rule
                 · cases hx
         · cases hx
 
-theorem targets_not_ident {L : LogicData} {s : SState} {r : RuleId} {bi b' i p : Nat} :
+theorem targets_not_ident {L : LogicData} {s : SState} {r : RuleId} {bi b' i p : Nat} (hr : r ≠ .ident) :
     Step.ident b' i p ∉ targets L s r bi := by
   intro hm
   obtain ⟨b, hh, hb, hhs, ho, hmem⟩ := mem_targets hm
   cases r with
+  | ident => exact hr rfl
   | closure =>
     simp only at hmem
     cases hc : hh.closeT with
@@ -1072,6 +1107,59 @@ theorem mem_enabled {L : LogicData} {s : SState} {r : RuleId} {bi : Nat} {st : S
   | closure => exact h
   | table k => simp only at h; split at h; exact h; cases h
   | frame fr => simp only at h; split at h; exact h; cases h
+  | ident => simp only at h; split at h; exact h; cases h
+
+theorem lsOf_ident (r : RuleId) (bi i p : Nat) : lsOf r (.ident bi i p) = none := by
+  cases r with
+  | frame fr => cases fr <;> rfl
+  | _ => rfl
+
+/-- an identity-substitution step (`cpl.IdentityIndiscernability`): one predication node at the identity's world is appended -/
+theorem inv_apply_ident {L : LogicData} {s1 s' : SState} {r : RuleId} {bi i p : Nat}
+    (hinv : Inv L s1) (hs' : applyTarget L s1 r (.ident bi i p) = some s') : Inv L s' := by
+  obtain ⟨b, h, t', hb, hh, ht⟩ := applyTarget_some hs'
+  obtain ⟨b', hb', ho, ha⟩ := applyStep_open ht
+  rw [hb] at hb'; simp only [Option.some.injEq] at hb'; subst hb'
+  have hls := lsOf_ok (r := r) hb ht
+  have H0 := (branchInv_iff hh).1 (hinv.branch _ b h hb hh ho)
+  simp only [applyAt] at ha
+  split at ha
+  · cases ha
+  split at ha
+  rotate_left
+  · cases ha
+  next ni np hni hnp =>
+  split at ha
+  rotate_left
+  · cases ha
+  next nd hnd =>
+  have ht' : t' = s1.tab.set (Step.ident bi i p).branch (b.extend [nd] none) ++ [] := by simpa using ha.symm
+  rw [ht'] at ht
+  -- the new node sits at the identity node's world
+  have hw : L.modal = true → ∀ sn d w, Node.sent sn d w ∈ [nd] → w.isSome = true := by
+    intro hm sn d w hx
+    simp only [List.mem_singleton] at hx
+    subst hx
+    unfold identAdd at hnd
+    split at hnd
+    · next q pa pb w0 pr ps w1 =>
+      have hwi := H0.worlded hm _ _ _ (List.mem_of_getElem? hni)
+      split at hnd
+      · cases hnd
+      · split at hnd
+        · simp only [Option.some.injEq, Node.sent.injEq] at hnd; rw [← hnd.2.2]; exact hwi
+        · split at hnd
+          · simp only [Option.some.injEq, Node.sent.injEq] at hnd; rw [← hnd.2.2]; exact hwi
+          · cases hnd
+    · cases hnd
+  refine inv_applyTarget_of hinv hb hh ht hs' (by simp [Branch.extend]) ?_ ?_
+  · intro _
+    have H1 := H0.setLS (lsOf r (.ident bi i p)) hls
+    have H2 := H1.extend [nd] none b.parent hw (own_dead_bound hinv hb)
+      (fun w2 hl => by rw [lsOf_ident] at hl; cases hl) (fun n hn => by cases hn)
+    rw [extend_parent] at H2
+    exact H2.afterApply r _ (fun bb n c w' he => by cases he)
+  · intro bn hbn; cases hbn
 
 /-- (1b) every legal `Ev.apply` keeps the invariant -/
 theorem inv_apply {L : LogicData} {s s' : SState} (hinv : Inv L s) {r : RuleId} {st : Step}
@@ -1084,7 +1172,7 @@ theorem inv_apply {L : LogicData} {s s' : SState} (hinv : Inv L s) {r : RuleId} 
   | close bi sn w => exact inv_apply_close h1 (Or.inl ⟨_, _, _, rfl⟩) hs'
   | closeIdent bi n => exact inv_apply_close h1 (Or.inr ⟨_, _, rfl⟩) hs'
   | frame bi fr w1 w2 w3 => exact inv_apply_frame h1 hs'
-  | ident bi i p => exact absurd hm targets_not_ident
+  | ident bi i p => exact inv_apply_ident h1 hs'
   | quit bi name tick =>
     refine inv_apply_quit h1 ?_ hs'
     intro b hb
